@@ -40,10 +40,13 @@ func genOpt(r *Rng) Opt {
 		o.Hash = r.Intn(2)
 	}
 	o.Zip = r.Chance(2, 5)
+	if o.Ctx > 0 && r.Chance(1, 3) {
+		o.CK = 1 + r.Intn(3)
+	}
 	return o
 }
 
-var badKinds = []string{"msg", "fR", "fS", "fA", "sL", "zS", "smA", "smR", "udA", "udR", "ncA", "ncR", "tS", "lS", "nS", "tK", "nK", "bPh", "tor", "fS", "msg", "fR", "noR", "noA", "lK", "noRB", "torR"}
+var badKinds = []string{"msg", "fR", "fS", "fA", "sL", "zS", "smA", "smR", "udA", "udR", "ncA", "ncR", "tS", "lS", "nS", "tK", "nK", "bPh", "tor", "fS", "msg", "fR", "noR", "noA", "lK", "noRB", "torR", "pfx"}
 
 var secondDamage = []string{"tK", "nK", "tS", "lS", "nS", "sL", "fS", "msg", "sL", "tK"}
 
@@ -66,8 +69,9 @@ func genBad(r *Rng, o Opt) Entry {
 	if k == "fS" && r.Chance(1, 3) {
 		e.P = 248 + r.Intn(8) // the top bits: S >= 2^253 classes
 	}
-	if r.Chance(1, 8) {
+	if r.Chance(1, 5) {
 		e.K2 = secondDamage[r.Intn(len(secondDamage))]
+		e.Q = r.Intn(1 << 16)
 	}
 	return e
 }
@@ -141,7 +145,30 @@ func genEntries(r *Rng, n int, o Opt) (es []Entry, profile string) {
 		b.Key, b.ML = es[i].Key, es[i].ML
 		es[i] = b
 	}
-	switch r.Pick(7, 5, 3, 2, 2, 1, 2, 1) {
+	switch r.Pick(7, 5, 3, 2, 2, 1, 2, 1, 1) {
+	case 8:
+		// exactly as many up-front rejections (S >= L) in the first chunk as
+		// the LAST chunk has entries, and a bad entry in that last chunk:
+		// a count carried from chunk to chunk coincides with a chunk size
+		profile = "sLcarry"
+		if n > 68 {
+			last := n % 64
+			if last < 4 {
+				last = 4
+			}
+			placed := 0
+			for tries := 0; placed < last && tries < 400; tries++ {
+				i := r.Intn(64)
+				if es[i].K != "sL" {
+					es[i] = Entry{K: "sL", Key: es[i].Key, ML: es[i].ML}
+					placed++
+				}
+			}
+			i := n - 1 - r.Intn(last)
+			es[i] = Entry{K: []string{"msg", "fS", "fR"}[r.Intn(3)], P: r.Intn(1 << 16), Key: es[i].Key, ML: es[i].ML}
+		} else {
+			setBad(r.Intn(n))
+		}
 	case 7:
 		// nearly every entry is rejected up front by the scalar rule (S >= L);
 		// what is left of the chunk must still be judged correctly
@@ -681,6 +708,11 @@ func checkBatch(c *Case, v *Verdict) {
 		return false
 	}
 
+	if out.ClobberedEarlier != "" && is("C13", "C06") {
+		v.fail("batch-earlier-result-changed", "results of earlier calls stay as returned", out.ClobberedEarlier,
+			"after this VerifyBatch call, what an earlier call had returned to its caller changed (%s)", out.ClobberedEarlier)
+		return
+	}
 	if !out.Intact && is("C13") {
 		v.fail("batch-intact", "caller memory untouched", act, "VerifyBatch modified caller-supplied memory")
 		return
